@@ -36,6 +36,7 @@ THEOREMS = ['Scalibr.Unpack.C06_unpack_contained_partial', 'Scalibr.Unpack.C06_r
             'Scalibr.Unpack.C06_unpack_outside_unchanged_cfg', 'Scalibr.Unpack.C06_unpack_contained_cfg_partial', 'Scalibr.Unpack.unpackAllC_safeG',
             'Scalibr.Unpack.linkAt_safe', 'Scalibr.Unpack.C06_unpack_nonretain_reads_beside_the_link', 'Scalibr.Unpack.C06_unpack_outside_unchanged_cut']
 CWD_KEY = 'C06/nonretain-link-copy-reads-working-directory'
+NFI_KEY = 'C06/newfromimage-leaves-tempdir-on-error'
 
 THEOREMS_LOAD = ['Scalibr.ImageLife.C06_load_failed_restores', 'Scalibr.ImageLife.C06_load_cleanup_restores', 'Scalibr.ImageLife.C06_load_others_untouched',
                  'Scalibr.ImageLife.loop_failed', 'Scalibr.ImageLife.loop_others',
@@ -433,6 +434,8 @@ def load_stream(ctx, replay=None):
         stats['loads with an invalid history (fallback: one chain layer per archive)'] += 'X' in hist
         stats['loads with requirer ' + {'A': 'all', 'N': 'none', 'P': 'path set'}.get(req, req)] += 1
         stats['loads through image.' + ('FromTarball' if entry == 't' and kind not in 'eyg' else 'FromV1Image')] += 1
+        if f.get('nfi', '-') != '-':
+            stats['artifact/image.NewFromImage of the same image: ' + ('error returned' if f.get('nfi') == '1' else 'ok (directory removed by the harness: no clean-up API)')] += 1
         if f.get('uerr', '-') != '-':
             stats['UnpackSquashed of the same image: ' + ('error returned' if f.get('uerr') == '1' else 'ok')] += 1
         if f.get('err') == '1':
@@ -464,6 +467,13 @@ def load_stream(ctx, replay=None):
                 stats['UnpackSquashed: known finding ' + KEY] += 1
             else:
                 what = utext
+        if what is None and f.get('nfi') == '1' and f.get('nfileft', '0') != '0':
+            ntext = ('artifact/image.NewFromImage failed on the image and left %s scalibr-container-* director%s in TMPDIR (the caller is never told the name)'
+                     % (f.get('nfileft'), 'y' if f.get('nfileft') == '1' else 'ies'))
+            if f.get('nfileft') == '1' and f.get('uout', '-') == '-' and ctx.known_finding(NFI_KEY, ntext + '. ' + case):
+                stats['NewFromImage: known finding ' + NFI_KEY] += 1
+            else:
+                what = ntext
         desc = 'chain layers %s (L archive, E empty-layer entry, X archive marked empty), requirer %s, entry point image.%s, %s director%s already in TMPDIR; layer %s: %s, after %s good entries; %s' % (
             hist, req, 'FromTarball' if entry == 't' else 'FromV1Image', decoys, 'y' if decoys == '1' else 'ies', fail, KIND.get(kind, kind), pos,
             'hostile entries (names with .., absolute paths into the sandbox, links out and writes through them; seed %s) in every archive' % seed
